@@ -42,6 +42,7 @@ class Ref:
         self.cyc = 0
         self.depth = 0
         self.esp = []            # stack pointer right after the JSR of each open frame
+        self.calls = []          # instruction index of the JSR of each open frame
         self.states = []         # (pc, a, x, y, sp, n, z, cyc, depth, entry_sp, opcode, ret)
         self.by_cyc = {}
         self.final = False
@@ -52,7 +53,7 @@ class Ref:
         self.by_cyc[self.cyc] = len(self.states)
         ret = (1 + self.mem[0x100 + self.sp + 1] + 256 * self.mem[0x100 + self.sp + 2]) & 0xFFFF   # step_out's will_return_to
         self.states.append((self.pc, self.a, self.x, self.y, self.sp, self.n, self.z, self.cyc, self.depth,
-                            self.esp[-1] if self.esp else None, op, ret))
+                            self.esp[-1] if self.esp else None, op, ret, self.calls[-1] if self.calls else None))
         if op == BRK:
             self.final = True
 
@@ -100,6 +101,7 @@ class Ref:
             pc = m[pc + 1] | (m[pc + 2] << 8)
             self.depth += 1
             self.esp.append(self.sp)
+            self.calls.append(len(self.states) - 1)
         elif op == 0x60:
             self.sp = (self.sp + 1) & 255; lo = m[0x100 + self.sp]
             self.sp = (self.sp + 1) & 255; hi = m[0x100 + self.sp]
@@ -107,6 +109,7 @@ class Ref:
             self.depth -= 1
             if self.esp:
                 self.esp.pop()
+                self.calls.pop()
         elif op == 0x4C:
             pc = m[pc + 1] | (m[pc + 2] << 8)
         elif op in (0xD0, 0xF0):
@@ -165,7 +168,8 @@ class Ref:
         return self.first_after(i, lambda t: t[8] == s[8] - 1)
 
     def stack_dirty(self, i):
-        """the subroutine has pushed something that is still on the stack (class Known_stepout_stack_dirty)"""
+        """the subroutine has pushed something that is still on the stack (used by the generator only, to stay away from
+        the listed class in endless programs; failures are classified by the extracted predicate, see classify())"""
         s = self.st(i)
         return s[9] is not None and s[4] != s[9]
 
@@ -252,8 +256,9 @@ class Failure(Exception):
 class Session:
     """drives one debug session from a per-session PRNG; all verdicts from protocol-visible state"""
 
-    def __init__(self, mos, prog, seed, sched, max_us, nreq, max_delay_ms=20.0, script=None):
+    def __init__(self, mos, prog, seed, sched, max_us, nreq, max_delay_ms=20.0, script=None, model=None):
         self.mos, self.prog, self.seed, self.sched, self.max_us, self.nreq = mos, prog, seed, sched, max_us, nreq
+        self.model = model              # mosmodel_c19: evaluates the Known_* predicates extracted from Coq
         self.rng = random.Random(seed)
         self.max_delay = max_delay_ms / 1000.0
         self.script = script            # fixed list of commands (corpus witnesses) or None = random
@@ -313,6 +318,13 @@ class Session:
         self.stats["requests"] += 2
         extra = self.rng.random()
         idx = ref.locate(r1["CYC"])
+        if idx is None and ref.cyc < r1["CYC"] and not ref.final:
+            # the machine ran further than the reference run is computed (only without schedule perturbation): the stop
+            # cannot be located; the session ends here without a verdict on it
+            self.stats["beyond_reference"] = self.stats.get("beyond_reference", 0) + 1
+            self.cur = None
+            self.running = False
+            return None
         if idx is None:
             self.fail("reference", "cycle count %d is not an instruction boundary of the reference run" % r1["CYC"])
             self.cur = None
@@ -360,9 +372,7 @@ class Session:
         elif command in ("stepIn", "next", "stepOut") and prev is not None:
             want = {"stepIn": ref.step_in, "next": ref.next, "stepOut": ref.step_out}[command](prev)
             if want is not None and idx != want:
-                klass = None
-                if command == "stepOut" and ref.stack_dirty(prev):
-                    klass = "Known_stepout_stack_dirty"
+                klass = self.stepout_class(prev) if command == "stepOut" else None
                 self.fail("oracle", "`%s` from instruction %d (line %d) must land on instruction %d (line %d) but the machine is at instruction %d (line %d)" % (
                     command, prev, prog.line_of.get(ref.st(prev)[0]), want, prog.line_of.get(ref.st(want)[0]), idx, want_line), klass=klass)
         for n, b in self.d.take_events():     # a second `stopped` for the same halt (pause racing a breakpoint) is consumed here
@@ -374,8 +384,13 @@ class Session:
         return idx
 
     def self_loop_class(self, k):
-        s, t = self.prog.ref.st(k), self.prog.ref.st(k + 1)
-        return "Known_breakpoint_self_loop" if s[0] == t[0] else None
+        return classify(self.model, self.prog, "Known_breakpoint_self_loop", k)
+
+    def stepout_class(self, i):
+        c = self.prog.ref.st(i)[12]
+        if c is None:
+            return None
+        return classify(self.model, self.prog, "Known_stepout_stack_dirty", i, call=c)
 
     # -- commands
     def set_breakpoints(self, lines):
@@ -565,6 +580,18 @@ class Session:
         raise ValueError(cmd)
 
 
+def classify(model, prog, klass, index, call=None):
+    """name of the known class if its predicate (extracted from Coq, model/DapStep.v) holds at `index` of the run"""
+    if model is None:
+        return None
+    ref = prog.ref
+    ref.ensure(index + 2)
+    st = ref.states[:index + 3]
+    r = model.call({"cmd": "classify", "class": klass, "index": index, "call": call if call is not None else 0,
+                    "pc": [t[0] for t in st], "ret": [t[11] for t in st]})
+    return klass if r.get("holds") is True else None
+
+
 # ------------------------------------------------------------------------------------------------ trace inclusion
 ACCEPT_MAX_INDEX = 40000
 
@@ -647,23 +674,23 @@ STEPOUT_PHA = '.test "t" {\n    ldx #0\n    lda #7\n    jsr sub\n    inx\n    br
 SELF_LOOP = '.test "t" {\n    ldx #0\n    inx\nhang:\n    jmp hang\n}\n'
 
 
-def corpus_sessions(mos, probe, rng):
+def corpus_sessions(mos, probe, rng, model=None):
     """(name, Session) for the recorded witnesses; run first"""
     out = []
     p = Program(PAUSE_LOOP, probe)
     for i in range(3):
         script = [("setBreakpoints", [])] + [("pause",), ("continue",)] * 12
-        out.append(("pause_loop", Session(mos, p, rng.randrange(1 << 30), rng.randrange(1 << 30), 1500, 0, script=script)))
+        out.append(("pause_loop", Session(mos, p, rng.randrange(1 << 30), rng.randrange(1 << 30), 1500, 0, script=script, model=model)))
     out.append(("pause_loop_nosched", Session(mos, p, rng.randrange(1 << 30), None, 0, 0,
-                                              script=[("setBreakpoints", [])] + [("pause",), ("continue",)] * 12)))
+                                              script=[("setBreakpoints", [])] + [("pause",), ("continue",)] * 12, model=model)))
     p = Program(STEPOUT_PHA, probe)
     out.append(("stepout_after_pha", Session(mos, p, rng.randrange(1 << 30), None, 0, 0,
-                                             script=[("setBreakpoints", [9]), ("stepOut",)])))
+                                             script=[("setBreakpoints", [9]), ("stepOut",)], model=model)))
     p2 = Program(SELF_LOOP, probe)
-    out.append(("self_loop", Session(mos, p2, rng.randrange(1 << 30), None, 0, 0,
-                                     script=[("setBreakpoints", [5]), ("continue",), ("sleep", 200), ("pause",)])))
+    out.append(("self_loop", Session(mos, p2, rng.randrange(1 << 30), rng.randrange(1 << 30), 1500, 0,
+                                     script=[("setBreakpoints", [5]), ("continue",), ("sleep", 200), ("pause",)], model=model)))
     out.append(("stepout_clean", Session(mos, p, rng.randrange(1 << 30), None, 0, 0,
-                                         script=[("setBreakpoints", [8]), ("stepOut",)])))
+                                         script=[("setBreakpoints", [8]), ("stepOut",)], model=model)))
     return out
 
 
@@ -714,7 +741,7 @@ def run(chk):
     nsessions = 1000 if thorough else 150
     dist, distinct = {"sessions": 0, "sessions_sched": 0}, set()
     t0 = time.time()
-    for name, s in corpus_sessions(mos, probe, rng):
+    for name, s in corpus_sessions(mos, probe, rng, model):
         s.run()
         dist["sessions"] += 1
         absorb(chk, name, s, dist, distinct, model, protocol)
@@ -725,7 +752,9 @@ def run(chk):
             break
         prog = Program(gen_program(rng, endless=True, want_calls=rng.random() < 0.8), probe)
         sched = rng.randrange(1 << 30) if rng.random() < 0.75 else None
-        s = Session(mos, prog, rng.randrange(1 << 30), sched, rng.choice([150, 1500, 1500]), rng.randrange(12, 26) * 4)
+        s = Session(mos, prog, rng.randrange(1 << 30), sched, rng.choice([150, 1500, 1500]),
+                    rng.randrange(12, 26) * 4 if sched is not None else rng.randrange(8, 16) * 4,
+                    max_delay_ms=20.0 if sched is not None else 6.0, model=model)
         s.run()
         dist["sessions"] += 1
         dist["sessions_sched"] += 1 if sched is not None else 0
@@ -749,16 +778,18 @@ def run(chk):
 def replay(chk, path):
     obj = json.load(open(path))["replay"]
     probe = Proc([common.build_probe()])
+    model = Proc([common.build_model("c19")], timeout=180)
     mos = common.build_mos()
     prog = Program(obj["program"], probe)
     n = 0
     for i in range(10):
         s = Session(mos, prog, obj["session_seed"], obj["sched"], obj["max_us"], obj["nreq"],
-                    script=[tuple(x) for x in obj["script"]] if obj.get("script") else None)
+                    script=[tuple(x) for x in obj["script"]] if obj.get("script") else None, model=model)
         s.run()
         for f in s.failures:
             n += 1
             print(json.dumps({"attempt": i, "failure": f}))
     print(json.dumps({"attempts": 10, "failures": n}))
     probe.stop()
+    model.stop()
     return 0
